@@ -87,3 +87,20 @@ Proof.
     destruct (fixed_piece_text d 11 s _ _ R11 Er) as [q [Eq Et]]. exists q. split; [exact Eq|]. split; [|eapply Qle_trans; [apply (printed_value_error 2 q) | vm_compute; discriminate]].
     apply (numeric_field_reread line "temp" 60 66 s 6 2 q eq_refl Es Et).
 Qed.
+
+
+(* a table row whose chain identifier is the empty string fits its field widths and is exported, but the exported
+   line cannot be read back: the parser rejects a blank chain with a blank segID (as C01 requires) *)
+Definition blank_chain_row : row :=
+  [VInt 1; VText "CA"; VText ""; VText "ALA"; VText ""; VInt 1; VText ""; VReal (1#1); VReal (2#1); VReal (3#1);
+   VReal (1#1); VReal 0; VText "C"; VInt 0].
+Definition blank_chain_line : string :=
+  "ATOM      1  CA  ALA     1       1.000   2.000   3.000  1.00  0.00           C  ".
+Lemma blank_chain_not_rereadable : exists d line,
+  fits d = true /\ line_of_row d = Ok line /\ parse_record 0 line = Err "ValueError".
+Proof.
+  exists blank_chain_row, blank_chain_line. split; [|split].
+  - vm_compute. reflexivity.
+  - vm_compute. reflexivity.
+  - vm_compute. reflexivity.
+Qed.
